@@ -125,10 +125,10 @@ PrecCase(i, j, k) ==
       e == ((j - 1) \div 9) - 5
       m == ((k - 1) % 6) + 1
       fp == ((k - 1) \div 6) % 7
-      kd == ((k - 1) \div 42) % 2
-      ng == ((k - 1) \div 84) % 2 = 1
+      kd == ((k - 1) \div 42) % 3
+      ng == ((k - 1) \div 126) % 2 = 1
   IN [op |-> "print", base |-> B, mode |-> Modes[m], x |-> Float(ng, SigDigits0(v, B), B, e, 0),
-      kind |-> IF kd = 0 THEN "display" ELSE "lexp", fprec |-> fp]
+      kind |-> IF kd = 0 THEN "display" ELSE IF kd = 1 THEN "lexp" ELSE "uexp", fprec |-> fp]
 
 \* ------------------------------------------------------------------ convert
 CFns == <<"with_base", "with_base_and_precision", "to_decimal", "to_binary", "with_precision">>
@@ -148,6 +148,20 @@ ConvertCase(i, j, k) ==
 \* the functions that ignore the target base are generated once (for T = B)
 ConvertOK(i, k) == CFns[((k - 1) % 5) + 1] \in {"with_base", "with_base_and_precision"} \/ ((i - 1) % 6) = ((i - 1) \div 6)
 
+\* ------------------------------------------------------------------ with_precision by one or two digits
+\* significands just above a power of the base (1000...01), all-max (999...9) and dense ones, of 2..24 digits, shrunk by
+\* one or two digits: a digit-count ESTIMATE that is off by one decides wrongly exactly here
+WPrecCase(i, j, k) ==
+  LET B == HBases[i]
+      d == j + 1
+      pat == ((k - 1) % 3) + 1
+      drop == ((k - 1) \div 3) + 1
+      ds == CASE pat = 1 -> [t \in 1..d |-> IF t = 1 \/ t = d THEN 1 ELSE 0]
+              [] pat = 2 -> [t \in 1..d |-> B - 1]
+              [] pat = 3 -> [t \in 1..d |-> IF t = 1 THEN 1 ELSE IF t = d THEN 1 + (Lcg(t, Seed) % (B - 1)) ELSE Lcg(t, Seed + B) % B]
+  IN [op |-> "convert", base |-> B, mode |-> Modes[((i + j + k + Seed) % 6) + 1],
+      x |-> Float((i + j + k) % 2 = 0, ds, B, -(j % 5), 0), fn |-> "with_precision", tbase |-> B, tprec |-> Max2(1, d - drop)]
+
 \* ------------------------------------------------------------------ from f32 / f64
 \* 16-bit fields, most significant first
 F64Pats == << <<0, 0, 0, 0>>, <<32768, 0, 0, 0>>, <<0, 0, 0, 1>>, <<32768, 0, 0, 1>>, <<15, 65535, 65535, 65535>>,
@@ -165,12 +179,12 @@ FromFCase(i, j, k) ==
                    ELSE <<Lcg(j, Seed + 5) * 16 % 65536, Lcg(j + 1, Seed + 5) * 17 % 65536>>]
 
 \* ------------------------------------------------------------------ enumeration
-Classes == {"grammar", "roundtrip", "precprint", "convert", "fromf"}
-NI(c) == CASE c = "grammar" -> 6 [] c = "roundtrip" -> 6 [] c = "precprint" -> IF Thorough THEN 6 ELSE 3 [] c = "convert" -> 36 [] c = "fromf" -> 2
+Classes == {"grammar", "roundtrip", "precprint", "convert", "fromf", "wprec"}
+NI(c) == CASE c = "grammar" -> 6 [] c = "roundtrip" -> 6 [] c = "precprint" -> IF Thorough THEN 6 ELSE 3 [] c = "convert" -> 36 [] c = "fromf" -> 2 [] c = "wprec" -> 6
 NJ(c) == CASE c = "grammar" -> 42 [] c = "roundtrip" -> 10 * Len(RTExps) [] c = "precprint" -> 63
-           [] c = "convert" -> 5 * Len(CExps) [] c = "fromf" -> 40
-NK(c) == CASE c = "grammar" -> 153 [] c = "roundtrip" -> IF Thorough THEN 6 ELSE 3 [] c = "precprint" -> 168
-           [] c = "convert" -> 25 [] c = "fromf" -> 1
+           [] c = "convert" -> 5 * Len(CExps) [] c = "fromf" -> 40 [] c = "wprec" -> 23
+NK(c) == CASE c = "grammar" -> 153 [] c = "roundtrip" -> IF Thorough THEN 6 ELSE 3 [] c = "precprint" -> 252
+           [] c = "convert" -> 25 [] c = "fromf" -> 1 [] c = "wprec" -> 6
 
 VARIABLES phase, cls, i, j, k
 vars == <<phase, cls, i, j, k>>
@@ -192,5 +206,6 @@ Case ==
     [] cls = "precprint" -> PrecCase(i, j, k)
     [] cls = "convert" -> ConvertCase(i, j, k)
     [] cls = "fromf" -> FromFCase(i, j, k)
+    [] cls = "wprec" -> WPrecCase(i, j, k)
 Emit == phase = "done" => PrintT(<<"GEN", ToJson(Case)>>)
 =============================================================================
